@@ -33,6 +33,10 @@ pub struct Oracles {
     pub sync_bg: bool,
     /// Allow the Stats descriptor (hangs on trees with the self-deadlock)
     pub allow_stats: bool,
+    /// Run on raindb's own disk-backed filesystem (TmpFileSystem: real files in a fresh temporary
+    /// directory) instead of the harness's in-memory filesystem
+    #[serde(default)]
+    pub disk: bool,
 }
 
 #[derive(Clone, Debug, Default, Serialize, Deserialize)]
@@ -114,6 +118,9 @@ struct IterState {
 pub struct Interp<'a> {
     case: &'a Case,
     pub fs: Arc<MemFs>,
+    /// set for on-disk runs: the disk filesystem and its root directory (the database holds another
+    /// reference to the filesystem, so the temporary directory is removed only after the database is gone)
+    disk: Option<(Arc<dyn FileSystem>, std::path::PathBuf)>,
     // NOTE: field order matters for drop order: iterators, then snapshots, then the database
     iters: Vec<IterState>,
     snaps: Vec<(Snapshot, Model)>,
@@ -151,6 +158,14 @@ impl<'a> Interp<'a> {
         Interp {
             case,
             fs: Arc::new(MemFs::new(false)),
+            disk: if o.disk {
+                let t = raindb::fs::TmpFileSystem::new(None);
+                let root = t.get_root_path();
+                let fs: Arc<dyn FileSystem> = Arc::new(t);
+                Some((fs, root))
+            } else {
+                None
+            },
             iters: vec![],
             snaps: vec![],
             db: None,
@@ -177,6 +192,40 @@ impl<'a> Interp<'a> {
         ReadOptions { fill_cache: t % 3 != 2, snapshot }
     }
 
+    fn dbopts(&self) -> DbOptions {
+        match &self.disk {
+            Some((fs, _)) => options_dyn(fs.clone(), &self.cfg),
+            None => options(&self.fs, &self.cfg),
+        }
+    }
+
+    /// Names of all files below the database directory ("db/...", the LOCK file left out as on MemFs).
+    fn file_names(&self) -> Vec<String> {
+        match &self.disk {
+            None => self.fs.file_names(),
+            Some((_, root)) => {
+                let mut out = vec![];
+                let mut stack = vec![root.join("db")];
+                while let Some(d) = stack.pop() {
+                    let Ok(rd) = std::fs::read_dir(&d) else { continue };
+                    for e in rd.flatten() {
+                        let p = e.path();
+                        if p.is_dir() {
+                            stack.push(p);
+                        } else if let Ok(rel) = p.strip_prefix(root) {
+                            let name = rel.to_string_lossy().replace('\\', "/");
+                            if name != "db/LOCK" {
+                                out.push(name);
+                            }
+                        }
+                    }
+                }
+                out.sort();
+                out
+            }
+        }
+    }
+
     fn fail<T>(&self, what: String) -> R<T> {
         Err(Failure {
             step: self.step,
@@ -194,7 +243,7 @@ impl<'a> Interp<'a> {
     }
 
     fn open(&mut self) -> R<()> {
-        match DB::open(options(&self.fs, &self.cfg)) {
+        match DB::open(self.dbopts()) {
             Ok(db) => {
                 self.db = Some(db);
                 Ok(())
@@ -466,7 +515,7 @@ impl<'a> Interp<'a> {
                     continue;
                 }
             }
-            let t = match raindb::verif::VTable::open(options(&self.fs, &self.cfg), f.number) {
+            let t = match raindb::verif::VTable::open(self.dbopts(), f.number) {
                 Ok(t) => t,
                 Err(e) => {
                     return self.fail(format!("{when}: listed table {} cannot be opened: {e}", f.number))
@@ -529,7 +578,7 @@ impl<'a> Interp<'a> {
             self.db().compact_range(Some(RESERVED_LO)..Some(RESERVED_HI));
             self.wait_idle()?;
         }
-        if let Err(e) = dir_exact(self.db(), &self.fs) {
+        if let Err(e) = dir_exact_names(self.db(), self.file_names()) {
             return self.fail(format!("{when}: {e}"));
         }
         if pinned_before {
@@ -1041,6 +1090,10 @@ fn compactions_total() -> u64 {
 /// C11(b): the directory holds exactly CURRENT, the current manifest, the active WAL and the tables
 /// of the current version. Call only when everything is released and background work is idle.
 pub fn dir_exact(db: &DB, fs: &MemFs) -> Result<(), String> {
+    dir_exact_names(db, fs.file_names())
+}
+
+pub fn dir_exact_names(db: &DB, names: Vec<String>) -> Result<(), String> {
     let st = db.verif_state();
     if let Some(b) = &st.bad_state {
         return Err(format!("database is in a bad state: {b}"));
@@ -1053,7 +1106,7 @@ pub fn dir_exact(db: &DB, fs: &MemFs) -> Result<(), String> {
     for f in &layout {
         want.insert(format!("db/data/{}.rdb", f.number));
     }
-    let have: BTreeSet<String> = fs.file_names().into_iter().collect();
+    let have: BTreeSet<String> = names.into_iter().collect();
     if want != have {
         let extra: Vec<_> = have.difference(&want).cloned().collect();
         let missing: Vec<_> = want.difference(&have).cloned().collect();
